@@ -66,13 +66,25 @@ def main():
         pkg = "./" + place + "/" if place else "./"
         touched = sorted({"./" + os.path.dirname(f) + "/" for f in re.findall(r"^\+\+\+ b/(\S+)", open(patch).read(), re.M)})
         runrx = "^(" + "|".join(demo_names) + ")$"
+        check_only = "--check-only" in sys.argv
+        prev = {}
+        if check_only:
+            try:
+                prev = json.load(open(os.path.join(seed_dir, "verified.json")))
+            except Exception:
+                prev = {}
+            for k in ("clean_demo_passes", "patched_builds", "existing_tests_pass_with_patch", "existing_tests_scope", "patched_demo_fails", "note", "superseded_by_fix"):
+                if k in prev:
+                    res[k] = prev[k]
+            res["rechecked_check_only"] = True
         # 1. clean + demo
-        shutil.copyfile(demo, demo_dst)
-        rc, failed, passed, out = gotest(wt, [pkg], runrx)
-        res["clean_demo_passes"] = rc == 0 and not failed and bool(passed)
-        if not res["clean_demo_passes"]:
-            res["clean_demo_output"] = out[-1500:]
-        os.remove(demo_dst)
+        if not check_only:
+            shutil.copyfile(demo, demo_dst)
+            rc, failed, passed, out = gotest(wt, [pkg], runrx)
+            res["clean_demo_passes"] = rc == 0 and not failed and bool(passed)
+            if not res["clean_demo_passes"]:
+                res["clean_demo_output"] = out[-1500:]
+            os.remove(demo_dst)
         # 2. patched: build + existing tests
         rc, out = sh(["git", "apply", patch], cwd=wt)
         if rc != 0:
@@ -88,19 +100,20 @@ def main():
             print(json.dumps(res, indent=1))
             print("STALE: patch no longer applies to /repo HEAD; rebase it by hand")
             return
-        rc, out = sh(["go", "build", "./..."], cwd=wt)
-        res["patched_builds"] = rc == 0
-        pk = ["./..."] if full else sorted(set(touched + [pkg]))
-        rc, failed, passed, out = gotest(wt, pk)
-        res["existing_tests_pass_with_patch"] = rc == 0 and not failed
-        res["existing_tests_scope"] = pk
-        if failed:
-            res["existing_failed"] = sorted(failed)
-        # 3. patched + demo
-        shutil.copyfile(demo, demo_dst)
-        rc, failed, passed, out = gotest(wt, [pkg], runrx)
-        res["patched_demo_fails"] = bool(failed & set(demo_names)) or (rc != 0 and not passed)
-        os.remove(demo_dst)
+        if not check_only:
+            rc, out = sh(["go", "build", "./..."], cwd=wt)
+            res["patched_builds"] = rc == 0
+            pk = ["./..."] if full else sorted(set(touched + [pkg]))
+            rc, failed, passed, out = gotest(wt, pk)
+            res["existing_tests_pass_with_patch"] = rc == 0 and not failed
+            res["existing_tests_scope"] = pk
+            if failed:
+                res["existing_failed"] = sorted(failed)
+            # 3. patched + demo
+            shutil.copyfile(demo, demo_dst)
+            rc, failed, passed, out = gotest(wt, [pkg], runrx)
+            res["patched_demo_fails"] = bool(failed & set(demo_names)) or (rc != 0 and not passed)
+            os.remove(demo_dst)
         # 4. the check
         env = dict(os.environ, VERIF_REPO=wt, VERIF_TIER=tier)
         p = subprocess.run([os.path.join(ROOT, "check"), prop, "--tier", tier], cwd=ROOT, env=env, stdout=subprocess.PIPE,
